@@ -106,7 +106,7 @@ def _discharge(ob, timeout_ms, unfolder=None, lemmas=(), twin_lemmas=()):
         # a small portfolio: quantifier instantiation is order-sensitive, so an attempt that gives up quickly is
         # retried with other seeds / without MBQI (each attempt is sound on its own)
         off = int(os.environ.get("PYVC_SEED_OFFSET", "0"))
-        for seed, mbqi in ((0 + off, True), (1 + off, False), (2 + off, True), (3 + off, False)):
+        for seed, mbqi in ((0 + off, False), (1 + off, True), (2 + off, False), (3 + off, True)):
             stop = False
             for depth in (1, 2, 3):
                 try:
@@ -149,20 +149,20 @@ def _discharge(ob, timeout_ms, unfolder=None, lemmas=(), twin_lemmas=()):
         st.add(z3.Not(ob.goal))
         if st.check() == z3.unsat:
             return "proved", f"z3({stage} hypotheses)", (time.time() - t0) * 1000, None
+    # final stage: the full VC; e-matching only first (the VCs are written for triggers), then with MBQI
+    s.set("smt.mbqi", False)
     s.add(z3.Not(ob.goal))
     r = s.check()
-    backend = "z3"
+    backend = "z3(no-mbqi)"
     if r == z3.unknown:
-        # second attempt: different arithmetic / quantifier settings
         s2 = z3.Solver()
         s2.set("timeout", timeout_ms)
-        s2.set("smt.mbqi", False)
         s2.set("smt.random_seed", 7 + int(os.environ.get("PYVC_SEED_OFFSET", "0")))
         for p in ob.pc:
             s2.add(p)
         s2.add(z3.Not(ob.goal))
         r = s2.check()
-        backend = "z3(no-mbqi)"
+        backend = "z3"
         if r != z3.unknown:
             s = s2
     ms = (time.time() - t0) * 1000
